@@ -545,7 +545,7 @@ func (fr *Frame) exec(in ssa.Instruction) {
 		ex.set(fr.st, "CH.cap", SArr(SInt, SInt), mkStore(c, ch, fr.val(in.Size).T))
 		fr.vals[in] = vInt(ch)
 	case *ssa.Send:
-		fr.chanSend(fr.val(in.Chan), fr.val(in.X), "true")
+		fr.chanSendT(fr.val(in.Chan), fr.val(in.X), "true", in.Chan.Type().Underlying().(*types.Chan).Elem())
 		ex.abstr["channel send in "+fr.fn.Name()+": blocking not modelled"] = true
 	case *ssa.Select:
 		fr.selectInstr(in)
@@ -856,6 +856,12 @@ func (fr *Frame) nextInstr(in *ssa.Next) {
 }
 
 func (fr *Frame) chanSend(ch Val, v Val, cond string) {
+	fr.chanSendT(ch, v, cond, nil)
+}
+
+// chanSendT records a send: the per-channel counter and the last value sent
+// (all leaves, keyed by the element type).
+func (fr *Frame) chanSendT(ch Val, v Val, cond string, et types.Type) {
 	ex := fr.ex
 	s := ex.get(fr.st, "CH.sent", SArr(SInt, SInt))
 	ex.set(fr.st, "CH.sent", SArr(SInt, SInt), mkIte(cond, mkStore(s, ch.T, mkApp("+", mkSelect(s, ch.T), "1")), s))
@@ -866,6 +872,20 @@ func (fr *Frame) chanSend(ch Val, v Val, cond string) {
 		}
 		l := ex.get(fr.st, "CH.last", SArr(SInt, SInt))
 		ex.set(fr.st, "CH.last", SArr(SInt, SInt), mkIte(cond, mkStore(l, ch.T, t), l))
+	}
+	if et != nil {
+		ls := leavesOf(et)
+		ts := flatten(v)
+		if len(ls) == len(ts) {
+			for i, l := range ls {
+				key := "CH.last." + typeKey(et) + "." + l.Path
+				srt := SArr(SInt, l.Sort)
+				ex.kinds[key] = l.Kind
+				ex.leafTyp[key] = l.Typ
+				a := ex.get(fr.st, key, srt)
+				ex.set(fr.st, key, srt, mkIte(cond, mkStore(a, ch.T, ts[i]), a))
+			}
+		}
 	}
 }
 
@@ -885,7 +905,7 @@ func (fr *Frame) selectInstr(in *ssa.Select) {
 		// a nil channel is never selected
 		fr.assume(mkImp(mkEq(idx, fmt.Sprint(i)), mkNot(mkEq(ch.T, "0"))))
 		if s.Dir == types.SendOnly {
-			fr.chanSend(ch, fr.val(s.Send), mkEq(idx, fmt.Sprint(i)))
+			fr.chanSendT(ch, fr.val(s.Send), mkEq(idx, fmt.Sprint(i)), s.Chan.Type().Underlying().(*types.Chan).Elem())
 		} else {
 			et := s.Chan.Type().Underlying().(*types.Chan).Elem()
 			v, facts := ex.freshVal(fr.st, et, "select.recv")
